@@ -68,7 +68,7 @@ struct World {
     if (exits >= 2) shape = "double-exit-in-one-segment";
     bool r = false;
     try { r = term.onRecvString(st, text); }
-    catch (const std::exception &e) { viol = shape + "-uncaught-exception what=" + e.what(); g_worker.poisoned = true; return false; }
+    catch (const std::exception &e) { viol = shape + "-uncaught-exception what=" + e.what(); return false; }   // would reach the event loop and terminate the process
     if (alive) { if (!r) { viol = "live-session-rejected-input"; return false; } if (!check_answers(lines, exp)) return false; }
     else if (!g_calls.empty()) { viol = "command-executed-on-ended-session"; return false; }
     // the loop runs whatever was deferred (session teardown)
@@ -129,9 +129,11 @@ static std::string replay(const std::vector<Op> &h, std::string &viol) {
     ok = w.segment(lines); i = j;
   }
   viol = w.viol;
-  if (!ok) g_worker.poisoned = true;   // deferred work of a failed replay must not leak into the next one
+  // deferred work of a failed replay must not leak into the next one: let the loop run it while the Terminal is still alive
+  if (!ok && !g_worker.poisoned && loop_has_deferred()) { try { pump(g_loop); } catch (...) { g_worker.poisoned = true; } }
   std::string canon;
   if (!w.alive) canon = "ended";
+  else if (w.term.impl_->sessions_.at(w.st) == nullptr) canon = "ended-after-violation";
   else { SessionContext *s = w.term.impl_->sessions_.at(w.st); canon = s->curr_input + "|" + std::to_string(s->cursor) + "|" + std::to_string(s->history_index) + "|"; for (auto &x : s->history) canon += x + ","; canon += "|" + std::to_string(w.ref.hist.size()); }
   if (ok && loop_has_deferred()) pump(g_loop);   // nothing may stay queued into the next replay
   return canon;
@@ -164,7 +166,7 @@ int main(int argc, char **argv) {
     if (!g_loop) g_loop = event::Loop::New();
     std::vector<Op> h; for (size_t i = 0; i + 1 < job.size(); i += 2) h.push_back({job[i], job[i + 1]});
     std::string v, c = replay(h, v); std::string r = c; r.push_back('\0'); r += v; return r; };
-  hx::Explorer<Op> ex; ex.name = "cmd:hist" + std::to_string(g_L); ex.deadline_s = hx::deadline_from_env(600);
+  hx::Explorer<Op> ex; ex.name = "cmd:hist" + std::to_string(g_L); ex.deadline_s = deadline(600);
   ex.show = [](const Op &o) { return std::string(o.glue ? "+" : "") + "'" + CMD[o.c] + "'"; };
   ex.menu = [&](const std::vector<Op> &h) { std::vector<Op> m; for (int g = 0; g < (h.empty() ? 1 : 2); g++) for (int c = 0; c < NCMD; c++) m.push_back({c, g}); return m; };
   ex.run = [&](const std::vector<Op> &h, std::string &viol) {
